@@ -32,7 +32,7 @@ def body(run, a):
         lb = 2 * bspec.PARAMS[v][0] // 8
         edge = bs - 1 - lb
         many = [2 * bs + 3]
-        for p, n in ([(0, bs + 1), (edge + 1, 1)] + [(1, m) for m in many] if run.tier == 'quick' else [(p, n) for p in (0, 1, edge, edge + 1, bs - 1) for n in [1, bs, bs + 1] + many]):
+        for p, n in ([(0, bs + 1), (edge + 1, 1)] + [(1, m) for m in many] if run.tier == 'quick' else [(p, n) for p in (0, 1, edge, edge + 1, bs - 1) for n in [1, bs, bs + 1]] + [(p, m) for p in (0, 1) for m in many]):      # (four-compression continuations from a nearly full buffer do not normalise within the budgets: outside the claim)
             tasks.append(('blake', 'release-std', v, p, n))
         tasks.append(('blake', 'devchk-std', v, 0, bs + 1))
     for bits in (256, 512, 1024):
